@@ -15,10 +15,25 @@ byte and is low for `idle` >= 1 cycles between packets.
 """
 
 
-def render_rx(ops, side=None, lead=2, tail=12, names=("rx_active", "rx_valid", "rx_data")):
+def gen_idle_data(rng):
+    """ literal description of what rx_data shows while rx_valid is low (UTMI leaves it undefined there; a ULPI PHY shows
+        RxCmd bytes on the same lines): None = the last byte is held (the kindest PHY) """
+    k = rng.random()
+    if k < 0.35:
+        return None
+    if k < 0.5:
+        return ["const", rng.choice([0x00, 0xFF, rng.getrandbits(8)])]
+    if k < 0.7:
+        return ["xor", rng.choice([0xFF, 0x0F, 0xF0, 0x07, 1 << rng.randrange(8), rng.getrandbits(8) | 1])]
+    return ["list", [rng.getrandbits(8) for _ in range(rng.choice([3, 5, 7, 11]))]]
+
+
+def render_rx(ops, side=None, lead=2, tail=12, names=("rx_active", "rx_valid", "rx_data"), idle_data=None):
     """ -> (wave, packets).  wave[t] = pin dict of cycle t.  packets[i] = dict(op=index into ops, t_start=first cycle with
         rx_active, t_end=first cycle with rx_active low again, sent=bytes really presented, byte_cycles=[cycle of each byte],
-        side=side pins in effect in cycle t_end). """
+        side=side pins in effect in cycle t_end).
+        idle_data: None | ["const", v] | ["xor", m] | ["list", [b, ...]] -- value of rx_data in every cycle with rx_valid low
+        (None: the last byte is held). """
     n_act, n_val, n_dat = names
     side = dict(side or {})
     wave = []
@@ -28,6 +43,16 @@ def render_rx(ops, side=None, lead=2, tail=12, names=("rx_active", "rx_valid", "
         d = dict(side)
         d[n_act] = active
         d[n_val] = valid
+        if not valid and idle_data is not None:
+            kind, arg = idle_data
+            if kind == "const":
+                data = arg & 0xFF
+            elif kind == "xor":
+                data = (data ^ arg) & 0xFF
+            elif kind == "list":
+                data = arg[len(wave) % len(arg)] & 0xFF
+            else:
+                raise ValueError(idle_data)
         d[n_dat] = data
         wave.append(d)
 
